@@ -468,6 +468,17 @@ func (c *Chain) Snapshot() (head, maxServed uint64) {
 	return c.Head, c.MaxServed
 }
 
+// ServedSnapshot copies the last receipt answer per transaction.
+func (c *Chain) ServedSnapshot() map[common.Hash]Served {
+	c.mu.Lock()
+	defer c.mu.Unlock()
+	m := map[common.Hash]Served{}
+	for k, v := range c.LastServed {
+		m[k] = v
+	}
+	return m
+}
+
 func (c *Chain) ServedReceipt(tx common.Hash) (Served, bool) {
 	c.mu.Lock()
 	defer c.mu.Unlock()
